@@ -52,7 +52,7 @@ ASSUMPTIONS = [
 ]
 TRUSTED_BASE = ['vf/monitors/c33.py: EType decoder', 'vf/hail_call_model.py', 'vf/gen_hail_types.py']
 SHARDS = {'quick': 1, 'thorough': 16}
-TIMEOUT = {'quick': 600, 'thorough': 1800}
+TIMEOUT = {'quick': 900, 'thorough': 1800}
 FORBIDDEN_STUBS = ('pandas',)
 FLOORS = {
     'python_roundtrips': 6000, 'engine_layout_decodes': 6000, 'bytes_decoded': 500_000, 'saw[missing]': 5000, 'saw[nonfinite]': 1000, 'saw[negzero]': 200,
